@@ -152,6 +152,28 @@ structure Ordered (h : Hier) : Prop where
   byName : h.sortByRank = false → h.looms.Pairwise (fun a b => cmpStr a.name b.name = .lt)
   looms : ∀ l ∈ h.looms, LoomOrdered l
 
+/-! ### Same union up to the names of the stream directories -/
+
+/-- Everything in the thread part except the directory name (erased). -/
+def ThreadPart.core (t : ThreadPart) : ThreadPart := { t with relpath := [] }
+
+/-- Same union, the stream directories possibly named differently. -/
+def SameUnionMod (ss ss' : List StreamMeta) : Prop :=
+  (ss.map (·.tp.core)).Perm (ss'.map (·.tp.core)) ∧
+  SameSet (appFacts ss) (appFacts ss') ∧
+  SameSet (rankFacts ss) (rankFacts ss') ∧
+  SameSet (cpuFacts ss) (cpuFacts ss')
+
+instance (ss ss' : List StreamMeta) : Decidable (SameUnionMod ss ss') := by
+  unfold SameUnionMod; exact inferInstance
+
+/-- No rank is claimed by two different processes. -/
+def RanksDistinct (ss : List StreamMeta) : Prop :=
+  ∀ x ∈ rankFacts ss, ∀ y ∈ rankFacts ss, x.2.2.1 = y.2.2.1 → x.1 = y.1 ∧ x.2.1 = y.2.1
+
+instance (ss : List StreamMeta) : Decidable (RanksDistinct ss) := by
+  unfold RanksDistinct; exact inferInstance
+
 /-! ### An explicit condition under which the code as it is cannot crash -/
 
 /-- The CPU entries written for loom `n`, in the order `load_cpus` meets them
